@@ -204,6 +204,19 @@ def directed():
             yield gen_case(rng, [0, 3, 0, 0], "int16", "dups", op, recv)
 
 
+def sweep(tier):
+    """every vector of row lengths with <= 4 rows of length 0..2 x every operation"""
+    import itertools
+    import random
+    rng = random.Random(77)
+    dts = ["int64"] if tier == "quick" else ["int64", "bool", "uint8", "float64"]
+    for n in range(0, 5):
+        for lens in itertools.product(range(3), repeat=n):
+            for dtype in dts:
+                for op in OPS:
+                    yield gen_case(rng, list(lens), dtype, "dups", op)
+
+
 def random_case(rng, tier):
     lens, _ = gen.length_vector(rng, tier)
     dtype = rng.choice(gen.DT_ALL)
